@@ -379,6 +379,11 @@ C09Clauses ==
        ClauseAt("DxIsFaceDifference", \A x \in XS : \A y \in YS :
           LET pv == Obs.psivals9[MeshId(x, y) + 1]  i == x - SX0(SegX(x)) IN
           Near(Obs.dx9[loc][x + 1][y + 1], pv[2 * i + 3] - pv[2 * i + 1], 4), loc)
+  \* at an x-face dx is what a centred difference across the face divides by: the psi difference between the two adjacent cell centres,
+  \* also across the joins between radial segments; at the inner edge of the grid twice the distance from the face to the first centre
+  /\ ClauseAt("DxIsCentreDifferenceAtFaces", \A x \in XS : \A y \in YS :
+          IF x = 0 THEN Near(Obs.dx9.xlow[1][y + 1], 2 * (Obs.psic9[1][y + 1] - Obs.psixl9[1][y + 1]), 6)
+          ELSE Near(Obs.dx9.xlow[x + 1][y + 1], Obs.psic9[x + 1][y + 1] - Obs.psic9[x][y + 1], 6), "xlow")
   /\ ClauseAt("PsixyXlowMonotone", \A x \in XS : \A y \in YS :
           x + 1 \in XS => (Obs.psixl9[x + 2][y + 1] - Obs.psixl9[x + 1][y + 1]) * Obs.bpsign > 0, "xlow")
   /\ ClauseAt("RadialListMonotone", \A k \in 1..Len(Obs.psivals9) : \A j \in 1..(Len(Obs.psivals9[k]) - 1) :
@@ -529,9 +534,12 @@ C05PairClauses ==
   IN /\ ClauseAt("QuadraticInNfine", Obs.nfineB = 2 * Obs.nfineA /\ Dom # {} /\ 10 * SA >= 25 * SB, "refine")
 
 --------------------------------------------------------------------------
+\* a variable the projection needs and the file does not have is itself the observation (a documented output is absent): the clause
+\* carries the property whose check asked for it, and nothing else is evaluated on that trace
 Observe ==
   /\ stage = "file"
-  /\ CASE Obs.prop = "C01" -> C01Clauses
+  /\ CASE "missing" \in DOMAIN Obs -> ClauseAt("Present_" \o Obs.prop, FALSE, "file")
+       [] Obs.prop = "C01" -> C01Clauses
        [] Obs.prop = "C02" -> PairClauses /\ C02ArcClauses
        [] Obs.prop = "C03" -> PairClauses /\ C03Extra
        [] Obs.prop = "C08" -> C08GridClauses
